@@ -97,6 +97,8 @@ fixed(['C03'], 'a76c764', '_untransformUnbounded resized _basisStatusCols twice 
 
 fixed(['C13'], '521ec1f', 'ratFromString accepted zero denominators ("1/0"): invalid Rational stored by the rational LP/MPS readers, boost::domain_error out of readFile() or a stack overflow inside GMP later')
 
+fixed(['C11', 'C03', 'C04'], '4010765', 'rational sparse solveLleft (behind SLUFactorRational::solveLeft(SSVector&, SVector&) and getBasisInverseRowRational) queued an index twice after exact cancellation: inexact inverse rows, duplicate indices, heap-buffer-overflow')
+
 # ------------------------------------------------------------------ open findings
 UND = r'(ABORT_CYCLING|RUNNING|UNKNOWN|ERROR|SINGULAR|NO_PROBLEM|NOT_INIT|OPTIMAL_UNSCALED_VIOLATIONS)'
 # --- simplex core
@@ -147,8 +149,6 @@ open_(['C03'], r'undecided\.[A-Z_]+:\{[^}]+\}.*',
 open_(['C03'], r'undecided\.ERROR:\{\}\+onlyreal',
       'default exact options, real-only sync mode: an LP whose double image is unbounded only by a rounding-level slope (1x6, coefficients 1/3, 2/3, 7000000049/3 rounded to doubles) is not decided: the floating-point solves keep reporting optimal, precision boosting runs into multiprecision_limit and the solve ends with ERROR', regex=True,
       repro='findings/C03_default_onlyreal_undecided.cpp')
-open_(['C11'], r'c11\.invrow:.*',
-      'getBasisInverseRowRational returns a row of the rational basis inverse that is not exact: it runs into the defective sparse left solve of the rational LU (an index that cancels and refills is queued twice; same root cause as the C11 solveLeft finding of the stand-alone factor)', regex=True)
 open_(['C03', 'C04', 'C11'], r'crash:asan:heap-buffer-overflow:CLUFactorRational::solveLleft\|SoPlexBase::getBasisInverseRowRational.*',
       'getBasisInverseRowRational runs into the defective sparse left solve of the rational LU (C11 known finding: an index that cancels and refills is queued twice; heap-buffer-overflow in CLUFactorRational::solveLleft)', regex=True)
 open_(['C03', 'C04', 'C11'], r'.*lifting=1.*',
